@@ -7,6 +7,8 @@ import (
 	"container/list"
 	"sync"
 	"sync/atomic"
+
+	"github.com/pion/webrtc/v4/internal/verifhook"
 )
 
 // Operation is a function.
@@ -39,6 +41,7 @@ func newOperations(
 // closed, the operation will be dropped. The queue is only deliberately closed
 // by a user.
 func (o *operations) Enqueue(op operation) {
+	verifhook.Point("ops.enqueue")
 	o.mu.Lock()
 	defer o.mu.Unlock()
 	_ = o.tryEnqueue(op)
@@ -78,6 +81,7 @@ func (o *operations) IsEmpty() bool {
 func (o *operations) Done() {
 	var wg sync.WaitGroup
 	wg.Add(1)
+	verifhook.Point("ops.done")
 	o.mu.Lock()
 	enqueued := o.tryEnqueue(func() {
 		wg.Done()
@@ -86,6 +90,7 @@ func (o *operations) Done() {
 	if !enqueued {
 		return
 	}
+	verifhook.Point("ops.done.wait")
 	wg.Wait()
 }
 
@@ -105,6 +110,7 @@ func (o *operations) GracefulClose() {
 
 	busyCh := o.busyCh
 	o.mu.Unlock()
+	verifhook.Point("ops.close.unlocked")
 	if busyCh == nil {
 		return
 	}
@@ -112,6 +118,7 @@ func (o *operations) GracefulClose() {
 }
 
 func (o *operations) pop() func() {
+	verifhook.Point("ops.pop")
 	o.mu.Lock()
 	defer o.mu.Unlock()
 	if o.ops.Len() == 0 {
@@ -129,6 +136,7 @@ func (o *operations) pop() func() {
 
 func (o *operations) start() {
 	defer func() {
+		verifhook.Point("ops.start.exit")
 		o.mu.Lock()
 		defer o.mu.Unlock()
 		// this wil lbe the most recent busy chan
